@@ -561,7 +561,7 @@ func main() {
 	cfg = hx.ParseFlags()
 	surf, rend, draw, paint, hist := surfaceStream(), renderStream(), drawStream(), paintStream(), histStream()
 	renderShapes(rend)
-	streams := []*hx.Stream{surf, rend, renderwinStream(), draw, paint, hist}
-	cfg.Write("C14", "surface: NewSurface(w,h) + a sequence of WriteCell calls (sizes 0..40 and around/above 65535 cells; coordinates inside, ==size, size+1, 65535, random), non-trivial = at least one write inside the surface; render: surface trees rendered by Surface.render into the root window of a real Vaxis on a fake console — random trees (depth <= 3, <= 12 children per node, negative and overflowing offsets, tied and distinct z), directed wrapper trees (root smaller than / equal to / larger than the terminal on each axis, 0..3 same-size children at (0,0) nested in each other, innermost children inside and overhanging each side) and shaped random trees (wrappers, almost-wrappers one cell off in size or position, children larger than or sticking out of their parent, root sizes relative to the window), non-trivial = the tree has children; renderwin: the same into the terminal window narrowed by 1..3 Window.New calls (whole, rest -1, inset, shifted partly or wholly outside, negative origin, larger than the parent), non-trivial = the tree has children; draw: Draw of Text/RichText (soft and hard wrap), Center, Button, TextField, list.Dynamic (fresh state) and nestings over Max in {0,1,2,3,7,255,256,65534,65535}^2 (products capped for the allocating widgets) and generated contents (empty, multi-line, wide, combining, longer/taller than the maximum, >65535 lines or columns), non-trivial = content does not fit the maximum or the widget is a container; paint: App.layout + render — Draw of a generated widget tree with Max = window size, rendered into the root window of a real Vaxis (1..24 x 1..8), non-trivial = some screen cell is painted; hist: ONE widget value (every kind above and nestings) built once and drawn 3..6 times with a sequence of constraints (directed: shown/collapsed/still collapsed with 0x0, w x 0, 0 x h; collapsed first; alternating; the same frame repeated; unbounded in between; growing; shrinking; fields changed while the constraint repeats — and random sequences that repeat earlier constraints) and with exported fields changed between draws (Content/Softwrap, segments, Value, Label, Gap, DrawCursor, fields of list items, contents becoming empty); every step records the surface the long-lived value returned (decided against the contract clauses and against the model's history), non-trivial = at least 3 draws with two different constraints or a field change",
+	streams := []*hx.Stream{surf, rend, renderwinStream(), apprunStream(), draw, paint, hist}
+	cfg.Write("C14", "surface: NewSurface(w,h) + a sequence of WriteCell calls (sizes 0..40 and around/above 65535 cells; coordinates inside, ==size, size+1, 65535, random), non-trivial = at least one write inside the surface; render: surface trees rendered by Surface.render into the root window of a real Vaxis on a fake console — random trees (depth <= 3, <= 12 children per node, negative and overflowing offsets, tied and distinct z), directed wrapper trees (root smaller than / equal to / larger than the terminal on each axis, 0..3 same-size children at (0,0) nested in each other, innermost children inside and overhanging each side) and shaped random trees (wrappers, almost-wrappers one cell off in size or position, children larger than or sticking out of their parent, root sizes relative to the window), non-trivial = the tree has children; renderwin: the same into the terminal window narrowed by 1..3 Window.New calls (whole, rest -1, inset, shifted partly or wholly outside, negative origin, larger than the parent), non-trivial = the tree has children; apprun: the real vxfw.App.Run on a fake console with a root widget that returns a generated tree (root smaller / equal / larger than the terminal, children of the root overhanging it), the frame decoded from the terminal output, non-trivial = the tree has children; draw: Draw of Text/RichText (soft and hard wrap), Center, Button, TextField, list.Dynamic (fresh state) and nestings over Max in {0,1,2,3,7,255,256,65534,65535}^2 (products capped for the allocating widgets) and generated contents (empty, multi-line, wide, combining, longer/taller than the maximum, >65535 lines or columns), non-trivial = content does not fit the maximum or the widget is a container; paint: App.layout + render — Draw of a generated widget tree with Max = window size, rendered into the root window of a real Vaxis (1..24 x 1..8), non-trivial = some screen cell is painted; hist: ONE widget value (every kind above and nestings) built once and drawn 3..6 times with a sequence of constraints (directed: shown/collapsed/still collapsed with 0x0, w x 0, 0 x h; collapsed first; alternating; the same frame repeated; unbounded in between; growing; shrinking; fields changed while the constraint repeats — and random sequences that repeat earlier constraints) and with exported fields changed between draws (Content/Softwrap, segments, Value, Label, Gap, DrawCursor, fields of list items, contents becoming empty); every step records the surface the long-lived value returned (decided against the contract clauses and against the model's history), non-trivial = at least 3 draws with two different constraints or a field change",
 		streams, drawExtra, nil)
 }
